@@ -248,6 +248,9 @@ def prog(t, qtype, axis, scale, zeropoint):
 
 
 def build(run):
+    from props import conformance
+
+    conformance.run_conformance(run, ['affine', 'group'])
     run.assume("A-ENGINE qvc VC generator + z3/cvc5", "A-PY python semantics subset",
                "A-REAL (half-step lemma over the reals; integer steps int8/uint8 are exact with wrap-around)",
                "A-TORCH-EW point-wise ops / promotion / round=RNE / clamp / casts", "A-TORCH-RED amin/amax: bound + attained axioms",
